@@ -53,6 +53,102 @@ fn serde_rename(rule: &str, pos: &str, ident: &str) -> Result<String, String> {
         .map_err(|_| "serde_derive's case.rs panicked (rustc would reject the derive)".to_string())
 }
 
+fn parse_named(src: &str, file_name: &str) -> Option<ParsedData> {
+    let ctx = ParseContext::default();
+    parse(&ctx, ParseFileContext { source_code: src.to_string(), crate_name: CrateName::from("c".to_string()),
+        file_name: file_name.into(), file_path: file_name.into() }).ok().flatten()
+}
+
+/// Fold per-file results in the given order exactly as cli/src/parse.rs's collector does (`*entry.or_default() += data`),
+/// reconcile, and generate TypeScript: returns the output bytes.
+fn fold_and_generate(files: &[(String, String)], order: &[usize]) -> Result<String, String> {
+    use std::collections::{BTreeMap, HashMap};
+    use typeshare_core::language::{Language, TypeScript};
+    let mut crates: BTreeMap<CrateName, ParsedData> = BTreeMap::new();
+    for &i in order {
+        let (name, src) = &files[i];
+        if let Some(d) = parse_named(src, name) {
+            let cn = d.crate_name.clone();
+            *crates.entry(cn).or_default() += d;
+        }
+    }
+    typeshare_core::reconcile::reconcile_aliases(&mut crates);
+    let mut out: Vec<u8> = Vec::new();
+    for (_, data) in crates {
+        let mut lang = TypeScript { no_version_header: true, ..Default::default() };
+        lang.generate_types(&mut out, &HashMap::new(), data).map_err(|e| e.to_string())?;
+    }
+    String::from_utf8(out).map_err(|e| e.to_string())
+}
+
+/// like fold_and_generate, but over in-memory sources, also returning the number of recorded parse errors
+fn fold_mem(files: &[String], order: &[usize]) -> Result<(String, usize), String> {
+    use std::collections::{BTreeMap, HashMap};
+    use typeshare_core::language::{Language, TypeScript};
+    let mut crates: BTreeMap<CrateName, ParsedData> = BTreeMap::new();
+    for &i in order {
+        if let Some(d) = parse_named(&files[i], &format!("f{}.rs", i)) {
+            let cn = d.crate_name.clone();
+            *crates.entry(cn).or_default() += d;
+        }
+    }
+    typeshare_core::reconcile::reconcile_aliases(&mut crates);
+    let mut out: Vec<u8> = Vec::new();
+    let mut nerr = 0;
+    for (_, data) in crates {
+        nerr += data.errors.len();
+        let mut lang = TypeScript { no_version_header: true, ..Default::default() };
+        lang.generate_types(&mut out, &HashMap::new(), data).map_err(|e| e.to_string())?;
+    }
+    Ok((String::from_utf8(out).map_err(|e| e.to_string())?, nerr))
+}
+
+const CORPUS: [(&str, &str, bool); 10] = [
+    ("AuthenticationRequest", "#[typeshare]\npub struct AuthenticationRequest { pub a: u32 }\n", true),
+    ("AuthenticationResponse", "#[typeshare]\npub struct AuthenticationResponse { pub r: AuthenticationRequest }\n", true),
+    ("Zed", "#[typeshare]\npub struct Zed { pub a: u32 }\n", true),
+    ("Kind", "#[typeshare]\npub enum Kind { A, B }\n", true),
+    ("KindOfThingWithAVeryLongSharedPrefixOne", "#[typeshare]\npub enum KindOfThingWithAVeryLongSharedPrefixOne { A }\n", true),
+    ("KindOfThingWithAVeryLongSharedPrefixTwo", "#[typeshare]\npub enum KindOfThingWithAVeryLongSharedPrefixTwo { B }\n", true),
+    ("Al", "#[typeshare]\npub type Al = Vec<Zed>;\n", true),
+    ("ALPHA", "#[typeshare]\npub const ALPHA: u32 = 1;\n", true),
+    ("BETA", "#[typeshare]\npub const BETA: u32 = 2;\n", true),
+    ("Unrepresentable", "#[typeshare]\npub struct Unrepresentable { pub x: u64 }\n", false),
+];
+const NFILES: usize = 3;
+/// distribution k assigns corpus item i to file ((i * (k + 1) + k) % NFILES), reversed inside the file for odd k
+fn distribution(k: usize) -> Vec<String> {
+    let mut files = vec![String::new(); NFILES];
+    let idx: Vec<usize> = if k % 2 == 1 { (0..CORPUS.len()).rev().collect() } else { (0..CORPUS.len()).collect() };
+    for i in idx { files[(i * (k + 1) + k) % NFILES].push_str(CORPUS[i].1); }
+    files
+}
+fn defs(out: &str, name: &str) -> usize {
+    ["interface ", "enum ", "type ", "const "].iter().map(|kw| out.matches(&format!("export {}{} ", kw, name)).count() + out.matches(&format!("export {}{}:", kw, name)).count()).sum()
+}
+/// C06 + C03 on one (distribution, arrival order): -> Some(description) when violated
+fn merge_case(k: usize, order: &[usize]) -> Option<String> {
+    let files = distribution(k);
+    let base = match fold_mem(&files, &[0, 1, 2]) { Ok(b) => b, Err(e) => return Some(format!("generation failed: {}", e)) };
+    let f2 = files.clone(); let o2 = order.to_vec();
+    let got = match panic::catch_unwind(move || fold_mem(&f2, &o2)) { Ok(Ok(g)) => g, Ok(Err(e)) => return Some(format!("generation failed: {}", e)), Err(_) => return Some("panicked".into()) };
+    for (name, _, good) in CORPUS.iter() {
+        let n = defs(&got.0, name);
+        if *good && n != 1 { return Some(format!("definition {} appears {} times in the output (C03/C11: exactly once)", name, n)); }
+        if !*good && n != 0 { return Some(format!("unsupported item {} was generated", name)); }
+    }
+    if got.1 != 1 { return Some(format!("{} parse errors recorded after the merge, expected exactly 1 (the unsupported item must be reported, not silently omitted)", got.1)); }
+    if got.0 != base.0 { return Some(format!("output bytes differ from arrival order [0,1,2] (C06): {:?} vs {:?}", &got.0.chars().take(200).collect::<String>(), &base.0.chars().take(200).collect::<String>())); }
+    None
+}
+
+fn permutations(n: usize) -> Vec<Vec<usize>> {
+    if n == 0 { return vec![vec![]]; }
+    let mut out = vec![];
+    for p in permutations(n - 1) { for pos in 0..n { let mut q = p.clone(); q.insert(pos, n - 1); out.push(q); } }
+    out
+}
+
 fn main() {
     panic::set_hook(Box::new(|_| {}));
     let a: Vec<String> = std::env::args().collect();
@@ -63,6 +159,35 @@ fn main() {
             println!("{{\"rule\": {:?}, \"position\": {:?}, \"ident\": {:?}, \"typeshare\": {:?}, \"serde\": {:?}}}", a[2], a[3], a[4], t, s);
             let bad = match (&t, &s) { (Ok(x), Ok(y)) => x != y, (Err(_), _) => true, (Ok(_), Err(_)) => false };
             std::process::exit(if bad { 1 } else { 0 });
+        }
+        Some("merge") => {
+            // merge <file.rs>...  -> exit 1 when two arrival orders of the same per-file results give different output bytes
+            let files: Vec<(String, String)> = a[2..].iter().map(|p| (p.clone(), std::fs::read_to_string(p).expect("read"))).collect();
+            let base = panic::catch_unwind(|| fold_and_generate(&files, &(0..files.len()).collect::<Vec<_>>()));
+            let base = match base { Ok(Ok(b)) => b, _ => { println!("{{\"error\": \"generation failed or panicked\"}}"); std::process::exit(2); } };
+            for p in permutations(files.len()) {
+                let f2 = files.clone(); let p2 = p.clone();
+                let other = panic::catch_unwind(move || fold_and_generate(&f2, &p2));
+                match other {
+                    Ok(Ok(o)) if o == base => {}
+                    _ => { println!("{{\"files\": {:?}, \"order_a\": {:?}, \"order_b\": {:?}, \"differs\": true}}", a[2..].to_vec(), (0..files.len()).collect::<Vec<_>>(), p); std::process::exit(1); }
+                }
+            }
+            println!("{{\"files\": {:?}, \"orders\": {}, \"differs\": false}}", a[2..].to_vec(), permutations(files.len()).len());
+            std::process::exit(0);
+        }
+        Some("merge-search") | Some("merge-check") => {
+            let report = |k: usize, p: &Vec<usize>, m: String| { println!("WITNESS {{\"input\": {{\"distribution\": {}, \"order\": {:?}}}, \"fails\": {:?}}}", k, p, m); std::process::exit(1); };
+            if a[1] == "merge-check" {
+                let k: usize = a[2].parse().unwrap();
+                let p: Vec<usize> = a[3].split(',').map(|x| x.trim().parse().unwrap()).collect();
+                if let Some(m) = merge_case(k, &p) { report(k, &p, m); }
+                println!("input passes"); std::process::exit(0);
+            }
+            let mut tried = 0;
+            for k in 0..6 { for p in permutations(NFILES) { tried += 1; if let Some(m) = merge_case(k, &p) { report(k, &p, m); } } }
+            println!("no failing input among {} (distribution of 10 items over 3 files, arrival order) pairs", tried);
+            std::process::exit(0);
         }
         _ => { eprintln!("usage: verif-replay rename <rule> <field|variant> <ident>"); std::process::exit(2); }
     }
